@@ -66,7 +66,8 @@ def overriders(tree, base_names, meths):
     return out
 
 
-def check(s):
+def check_step(s, R=lambda i: f"C01.{i}"):
+    """Composition of AbstractEnvLike.step / reset (rule ids through R so that other properties can carry the same obligations)."""
     P = s.prog
     self_ = ("param", "self")
     b = s.builder(inline=set())
@@ -79,28 +80,28 @@ def check(s):
         raise AnalysisError(f"{con}: expected a 6-tuple (state, observation, reward, terminal, truncate, info)")
     S, obs, r, term, trunc, info = ret[1]
     ref = s.refprog(b, REF, {"self": self_, "state": ("param", "state"), "action": ("param", "action"), "K": KEY})
-    s.eq("C01.1", con, nz, r, ref["r"], "reward == self.reward(incoming state, action, self.transition(incoming state, action))", loc, key="reward-of-transition",
+    s.eq(R(1), con, nz, r, ref["r"], "reward == self.reward(incoming state, action, self.transition(incoming state, action))", loc, key="reward-of-transition",
          necessary_for="the reward is that of exactly the transition taken from the given state with the given action")
-    s.eq("C01.2", con, nz, term, ref["term"], "terminal == self.terminal(successor)", loc, key="terminal-of-successor",
+    s.eq(R(2), con, nz, term, ref["term"], "terminal == self.terminal(successor)", loc, key="terminal-of-successor",
          necessary_for="the flags are those of exactly the transition taken")
-    s.eq("C01.2", con, nz, trunc, ref["trunc"], "truncated == self.truncate(successor)", loc, key="truncate-of-successor")
-    s.eq("C01.3", con, nz, S, ref["S"], "returned state == cond(terminal | truncate, self.initial(), successor)", loc, key="auto-reset",
+    s.eq(R(2), con, nz, trunc, ref["trunc"], "truncated == self.truncate(successor)", loc, key="truncate-of-successor")
+    s.eq(R(3), con, nz, S, ref["S"], "returned state == cond(terminal | truncate, self.initial(), successor)", loc, key="auto-reset",
          necessary_for="whenever either flag is raised the returned state is a freshly drawn initial state; otherwise the successor")
-    s.eq("C01.4", con, nz, obs, ref["obs"], "returned observation == self.observation(RETURNED state)", loc, key="observation-of-returned-state",
+    s.eq(R(4), con, nz, obs, ref["obs"], "returned observation == self.observation(RETURNED state)", loc, key="observation-of-returned-state",
          necessary_for="the returned observation is that of the returned (possibly reset) state")
-    s.eq("C01.1", con, nz, info, ref["info"], "info == self.transition_info(incoming state, action, successor)", loc, key="info-of-transition")
+    s.eq(R(1), con, nz, info, ref["info"], "info == self.transition_info(incoming state, action, successor)", loc, key="info-of-transition")
     raw = p.ret[1]
-    s.ob("C01.4", con, isinstance(raw[1], tuple) and raw[1][0] == "call" and raw[1][2][:1] == (raw[0],), "the observed state is the very node returned as state (same key draws)", loc,
+    s.ob(R(4), con, isinstance(raw[1], tuple) and raw[1][0] == "call" and raw[1][2][:1] == (raw[0],), "the observed state is the very node returned as state (same key draws)", loc,
          key="observation-same-node", detail=show(raw[1], maxlen=200))
     trans = [c for c in walk(p.ret) if isinstance(c, tuple) and c and c[0] == "call" and c[1] == ("attr", self_, "transition")]
-    s.ob("C01.1", con, len(trans) == 1, "exactly one transition per step", loc, key="one-transition", detail=str(len(trans)))
+    s.ob(R(1), con, len(trans) == 1, "exactly one transition per step", loc, key="one-transition", detail=str(len(trans)))
     # reset key is not a key used for the transition/reward/terminal (fresh draw)
     raw = p.ret[1][0]
     inits = [c for c in walk(raw) if isinstance(c, tuple) and c and c[0] == "call" and c[1] == ("attr", self_, "initial")]
     others = [dict((k, v) for k, v in c[3] if k).get("key") for c in walk(p.ret) if isinstance(c, tuple) and c and c[0] == "call"
               and isinstance(c[1], tuple) and c[1][0] == "attr" and c[1][1] == self_ and c[1][2] in ("transition", "reward", "terminal")]
     ik = dict((k, v) for k, v in inits[0][3] if k).get("key") if inits else None
-    s.ob("C01.3", con, len(inits) == 1 and ik is not None and ik not in others, "the reset draws its initial state with a key not used by transition/reward/terminal", loc,
+    s.ob(R(3), con, len(inits) == 1 and ik is not None and ik not in others, "the reset draws its initial state with a key not used by transition/reward/terminal", loc,
          key="reset-key-fresh", detail=show(ik or NONE))
     # ---------------------------------------------------------------- C01.5
     con5 = "AbstractEnvLike.reset"
@@ -112,8 +113,29 @@ def check(s):
     raw5 = p5.ret
     same = (isinstance(raw5, tuple) and raw5[0] == "tuple" and len(raw5[1]) == 3 and isinstance(raw5[1][1], tuple) and raw5[1][1][0] == "call"
             and raw5[1][1][2][:1] == (raw5[1][0],) and isinstance(raw5[1][2], tuple) and raw5[1][2][0] == "call" and raw5[1][2][2][:1] == (raw5[1][0],))
-    s.ob("C01.5", con5, r5 == want and same, "reset == (S, self.observation(S), self.state_info(S)) with S = ONE self.initial() draw", loc5, key="reset-composition",
+    s.ob(R(5), con5, r5 == want and same, "reset == (S, self.observation(S), self.state_info(S)) with S = ONE self.initial() draw", loc5, key="reset-composition",
          detail=show(raw5, maxlen=300), necessary_for="reset returns an initial state together with that state's own observation")
+    # the auto-reset selection must not run the reset branch eagerly: lerax.utils.filter_cond evaluates BOTH branch functions before
+    # selecting, which is harmless for pure environments but resets a host-side (Gymnasium-backed) environment on every step
+    import ast as _ast
+    ci_, dc_, fn_ = s.method("AbstractEnvLike", "step")
+    eager = []
+    for n_ in _ast.walk(fn_):
+        if isinstance(n_, _ast.Call):
+            f_ = n_.func
+            nm = f_.attr if isinstance(f_, _ast.Attribute) else (f_.id if isinstance(f_, _ast.Name) else "")
+            if nm == "filter_cond" and any(isinstance(x, _ast.Attribute) and x.attr == "initial" for a_ in n_.args for x in _ast.walk(a_)):
+                eager.append(f"line {n_.lineno}: filter_cond(..., self.initial ...)")
+    s.ob(R(3), con, not eager, "the reset branch is selected lazily (lax.cond), not evaluated on every step (filter_cond runs both branches)", loc, key="eager-reset-branch",
+         detail="; ".join(eager), necessary_for="the transition is taken from the given state also for environments whose `initial` has host-side effects (GymToLeraxEnv resets the wrapped simulator)")
+    return b
+
+
+def check(s):
+    P = s.prog
+    self_ = ("param", "self")
+    b = check_step(s)
+    nz = Normalizer(b)
     # ---------------------------------------------------------------- C01.6
     envlike = P.cls("AbstractEnvLike")
     bad = []
